@@ -37,6 +37,7 @@ type c08Case struct {
 	Wrap          string   `json:"wrap"`
 	Hdrs          []c08Hdr `json:"hdrs"`
 	Extra         bool     `json:"extra"`
+	Pad           string   `json:"pad"`
 }
 
 // one declared response header of part "hdr": the schema is an abstract schema of spec/SchemaSem.tla
@@ -55,6 +56,46 @@ func c08Run(c *Case) []any {
 	var raw map[string]any
 	c.Decode(&raw)
 	line := map[string]any{"case": c.Idx, "c": raw}
+	in, body, docErr := c08Build(&tc)
+	if docErr != nil {
+		line["doc"] = "error"
+		line["docErr"] = docErr.Error()
+		return []any{line}
+	}
+	line["doc"] = "ok"
+	line["verdict"] = c08Validate(in)
+	line["sent"] = string(body)
+	if in.Body == nil {
+		line["after"] = "<nil body>"
+	} else if b, err := io.ReadAll(in.Body); err != nil {
+		line["after"] = "<read error>"
+	} else {
+		line["after"] = string(b)
+	}
+	return []any{line}
+}
+
+// c08Validate calls the library on a realised response and projects the result to its class.
+func c08Validate(in *openapi3filter.ResponseValidationInput) string {
+	var verr error
+	p, _ := guard(func() { verr = openapi3filter.ValidateResponse(context.Background(), in) })
+	var re *openapi3filter.ResponseError
+	switch {
+	case p:
+		return "panic"
+	case verr == nil:
+		return "ok"
+	case errors.As(verr, &re):
+		return "response_error"
+	default:
+		return "other_error"
+	}
+}
+
+// c08Build realises one abstract response (document loaded through the real loader, route found by the real router,
+// header set, body bytes) as a ResponseValidationInput; it does not call the validator.
+func c08Build(tcp *c08Case) (*openapi3filter.ResponseValidationInput, []byte, error) {
+	tc := *tcp
 	responses := map[string]any{}
 	status := 200
 	method := "GET"
@@ -72,6 +113,9 @@ func c08Run(c *Case) []any {
 		status, method = tc.Status, tc.Method
 		hdr.Set("Content-Type", "application/json")
 		body = []byte(`{"e` + tc.BodyKey + `":1}`)
+		if tc.Pad != "" {
+			body = []byte(`{"e` + tc.BodyKey + `":1,"n":"` + tc.Pad + `"}`)
+		}
 		opts.IncludeResponseStatus = tc.IncludeStatus
 	} else {
 		r := map[string]any{"description": "ok"}
@@ -166,11 +210,8 @@ func c08Run(c *Case) []any {
 		err = d.Validate(context.Background())
 	}
 	if err != nil {
-		line["doc"] = "error"
-		line["docErr"] = err.Error()
-		return []any{line}
+		return nil, nil, err
 	}
-	line["doc"] = "ok"
 	router, err := gorillamux.NewRouter(d)
 	if err != nil {
 		panic(err)
@@ -183,28 +224,7 @@ func c08Run(c *Case) []any {
 	in := &openapi3filter.ResponseValidationInput{
 		RequestValidationInput: &openapi3filter.RequestValidationInput{Request: req, PathParams: pp, Route: route, Options: opts},
 		Status:                 status, Header: hdr, Body: io.NopCloser(bytes.NewReader(body)), Options: opts}
-	var verr error
-	p, _ := guard(func() { verr = openapi3filter.ValidateResponse(context.Background(), in) })
-	var re *openapi3filter.ResponseError
-	switch {
-	case p:
-		line["verdict"] = "panic"
-	case verr == nil:
-		line["verdict"] = "ok"
-	case errors.As(verr, &re):
-		line["verdict"] = "response_error"
-	default:
-		line["verdict"] = "other_error"
-	}
-	line["sent"] = string(body)
-	if in.Body == nil {
-		line["after"] = "<nil body>"
-	} else if b, err := io.ReadAll(in.Body); err != nil {
-		line["after"] = "<read error>"
-	} else {
-		line["after"] = string(b)
-	}
-	return []any{line}
+	return in, body, nil
 }
 
 func init() {
